@@ -968,6 +968,12 @@ func (k *c07k) statusIs(v ssa.Value, want int64, depth int) c07v {
 	if src, ok := c07capturedValue(v); ok && depth <= 3 {
 		return k.statusIs(src, want, depth+1)
 	}
+	// the result of an in-package helper that asks the deadliner (`exempt, ok := db.admitDuty(…)`)
+	if call, idx, ok := c07resultOf(v); ok && depth <= 3 {
+		if g := k.ix.Callee(&call.Call); g != nil {
+			return k.statusIsResult(g, idx, want, depth)
+		}
+	}
 	// a field of a parameter object (`req.exempt`, `b.exempt`): every value stored into that field in the package
 	if key, ok := c07fieldRead(v); ok && depth <= 3 {
 		out, n := c07Ok(), 0
@@ -989,6 +995,49 @@ func (k *c07k) statusIs(v ssa.Value, want int64, depth int) c07v {
 		return c07Unsure("flag is a struct field that is never assigned in the package")
 	}
 	return c07Unsure("origin of the exempt flag is not recognised")
+}
+
+// statusIsResult: result idx of in-package function g is `status == want` of the status g obtains from
+// deadliner.Add: every return hands out that comparison, or the constant false on a return that cannot be
+// reached when the status is `want`.
+func (k *c07k) statusIsResult(g *ssa.Function, idx int, want int64, depth int) c07v {
+	var add *ssa.Call
+	for _, ci := range an.Calls(g, an.Invoke("core.Deadliner.Add"), false) {
+		call, ok := ci.(*ssa.Call)
+		if !ok || add != nil {
+			return c07Unsure("origin of the exempt flag is not recognised")
+		}
+		add = call
+	}
+	if add == nil {
+		return c07Unsure("origin of the exempt flag is not recognised")
+	}
+	env := func(v ssa.Value) (constant.Value, bool) {
+		if v == ssa.Value(add) {
+			return constant.MakeInt64(want), true
+		}
+		return nil, false
+	}
+	out, n := c07Ok(), 0
+	for _, r := range an.Returns(g) {
+		rv := returnValues(r)
+		if idx >= len(rv) {
+			return c07Unsure("origin of the exempt flag is not recognised")
+		}
+		n++
+		if b, isConst := c07constBool(rv[idx]); isConst {
+			if !b && an.Dominates(add, r) && !an.C05ReachUnder(add, r, env) {
+				continue // false on a return that an exempt duty cannot take
+			}
+			out = out.and(c07Unsure("the exempt flag is a constant on a return of " + an.FuncName(g) + " that is not recognisably excluded for an exempt duty"))
+			continue
+		}
+		out = out.and(k.statusIs(rv[idx], want, depth+1))
+	}
+	if n == 0 {
+		return c07Unsure("origin of the exempt flag is not recognised")
+	}
+	return out
 }
 
 // fieldRead: v reads a struct field (x.f or *(&x.f)); returns the field's key.
